@@ -9,7 +9,7 @@ SHADOW = False
 CELLS_RULE = "(saved class, restoring class, kind of parameter difference, group kind)"
 EXPECT_PROBES = ["role-mismatch-refused", "params-mismatch-refused", "both-mismatch-refused", "sym-to-asym-refused",
                  "unused-element-differs-accepted", "same-config-accepted", "diff:generator-only", "diff:seed:M",
-                 "diff:seed:N", "diff:seed:S", "diff:shipped", "diff:group"]
+                 "diff:seed:N", "diff:seed:S", "diff:seed:MN-shift", "diff:shipped", "diff:group"]
 
 
 def other_p_same_q(gspec, rng):
@@ -34,7 +34,7 @@ def gen_other_pset(rng, ps0, cls):
     """returns (pspec, label) - a parameter set that differs from ps0 in one named way"""
     g0 = ps0["group"]
     ps1 = copy.deepcopy(ps0)
-    choices = ["seed:M", "seed:N", "seed:S", "shipped"]
+    choices = ["seed:M", "seed:N", "seed:S", "shipped", "seed:MN-shift"]
     if g0["kind"] == "int":
         choices += ["generator-only", "generator-only", "generator-only"]
         if gen.is_negligible(g0):
@@ -42,6 +42,16 @@ def gen_other_pset(rng, ps0, cls):
     elif g0["kind"] in ("i1024", "i2048", "i3072"):
         choices += ["generator-only"]
     c = rng.choice(choices)
+    if c == "seed:MN-shift":
+        # both seeds change but their concatenation does not (boundary shift, as for identities)
+        sd = worlds.seeds_of(ps0)
+        j = sd["M"] + sd["N"]
+        cuts = [i for i in range(len(j) + 1) if i != len(sd["M"])]
+        if not cuts:
+            return None, None
+        i = rng.choice(cuts)
+        ps1["M"], ps1["N"] = j[:i].hex(), j[i:].hex()
+        return ps1, c
     if c.startswith("seed:"):
         k = c[5:]
         old = worlds.seeds_of(ps0)[k]
@@ -193,9 +203,8 @@ class Oracle(Hooks):
                 continue
             # same role, nothing this role uses differs: an instance may be returned - and then it IS the session
             if not returned:
-                if dlabel == "none":
-                    self.flag(w, "same-config-refused", "from_serialized() raised %s for the same role and parameters"
-                              % exc, saved=saved_cls, exc=exc)
+                # a refusal is never a C09 matter (C08 judges restores under the same configuration)
+                w.probe("refused-though-nothing-used-differs")
                 continue
             w.probe("unused-element-differs-accepted" if dlabel == "unused-element" else "same-config-accepted")
             fin = [e for e in w.events if e["op"] == "deliver" and e["n"] == n.idx and e["out"] != "skip"]
